@@ -33,6 +33,7 @@ type fakeRunner struct {
 	w   *world
 	job *jobInfo // harness-side identity of the job this runner was created for
 	pr  **prunner.PipelineRunner
+	gen int
 
 	mu           sync.Mutex
 	onTaskChange func(t *task.Task)
